@@ -2,6 +2,7 @@ package chaingen
 
 import (
 	"github.com/protolambda/zrnt/eth2/beacon/common"
+	"sort"
 )
 
 func (c *Chain) noteSlashed(v common.ValidatorIndex) {
@@ -376,7 +377,40 @@ func (c *Chain) samplingCounters(st common.BeaconState, flats []common.FlatValid
 	}
 	if do {
 		active := specActive(flats, base)
-		_, examined, rejected, err := specSyncCommittee(sp, st, eff, active, base)
+		mine, examined, rejected, err := specSyncCommittee(sp, st, eff, active, base)
+		if err == nil && len(mine) == int(sp.SYNC_COMMITTEE_SIZE) {
+			// consecutive committees (own transcription): the same members, each as often, at other positions
+			if prev := c.prevSyncDraw; len(prev) == len(mine) {
+				a := append([]common.ValidatorIndex(nil), prev...)
+				b := append([]common.ValidatorIndex(nil), mine...)
+				sort.Slice(a, func(i, j int) bool { return a[i] < a[j] })
+				sort.Slice(b, func(i, j int) bool { return b[i] < b[j] })
+				sameSet, sameOrder := true, true
+				for i := range a {
+					sameSet = sameSet && a[i] == b[i]
+					sameOrder = sameOrder && prev[i] == mine[i]
+				}
+				if sameSet && !sameOrder {
+					c.Stats.Inc("consecutive_sync_committees_same_multiset_different_order")
+				}
+			}
+			c.prevSyncDraw = mine
+			// the state's next committee lists exactly these validators' keys in this order
+			if ss, ok := st.(common.SyncCommitteeBeaconState); ok {
+				if nv, e1 := ss.NextSyncCommittee(); e1 == nil {
+					if pv, e2 := nv.Pubkeys(); e2 == nil {
+						if pubs, e3 := pv.Flatten(); e3 == nil && len(pubs) == len(mine) {
+							for i, v := range mine {
+								if int(v) >= len(c.Vals) || PubOf(c.Vals[v].Key) != pubs[i] {
+									c.Stats.Inc("own_next_sync_committee_differs_from_state")
+									break
+								}
+							}
+						}
+					}
+				}
+			}
+		}
 		if n := uint64(len(active)); err == nil && n > 0 {
 			c.Stats.Max("max_sync_sampling_candidates_over_active_permille", int(examined*1000/n))
 			if examined > n {
